@@ -7,7 +7,7 @@ from .check_core import mc_states, LABS
 from .runner import Check
 
 
-IOLABS = ["int", "zero", "int_rev", "neg", "big", "str", "uni", "cross0", "dstr", "dstr"]
+IOLABS = ["int", "zero", "int_rev", "neg", "big", "str", "uni", "cross0", "dstr", "dstr", "flt"]
 
 
 def _decorate(g, L, known, rng, lines, grid):
@@ -33,6 +33,10 @@ def job_derive(job):
     for n in list(g.nodes())[:2]:
         g.add_node(n, nest=[1, 2], nestd={"k": [1]})      # public API: add_node on an existing node updates its attributes
     g.graph["gnest"] = [1]
+    if rng.random() < 0.3:
+        # graph attributes may have any name, also the names of constructor parameters
+        g.graph["edge_removal"] = False
+        g.graph["data"] = "survey.csv"
     lines.append({"op": "observe", "fork": False, "res": "ok", "obs": core.observe(g, L, known2, grid)})
     lo, hi = grid
     if big:                        # no query battery on the results, sampled windows
@@ -186,7 +190,12 @@ def run(prop, tier, seed):
         for i, st in enumerate(states):
             nst += 1
             labs = IOLABS if prop in ("C09", "C10", "C11") else LABS
-            jobs.append((rng.randrange(1 << 30), prop, st["dir"], st["hist"], labs[(i + seed) % len(labs)], known, grid, tier, st["rem"]))
+            hist = list(st["hist"])
+            if alphabet and rng.random() < 0.5:
+                # the witness history is the shortest way into the state: follow it by one or two calls of the alphabet, so
+                # that the same presence is also reached the long way round (closed then extended, re-stated, rejected ...)
+                hist += [dict(c) for c in rng.sample(alphabet, min(len(alphabet), rng.choice([1, 2])))]
+            jobs.append((rng.randrange(1 << 30), prop, st["dir"], hist, labs[(i + seed) % len(labs)], known, grid, tier, st["rem"]))
     nrand = 60 if tier == "quick" else 1500
     for i in range(nrand):
         nn = rng.choice([2, 3, 4, 5])
